@@ -21,6 +21,12 @@ pub enum Kept {
 pub struct World {
     pub kept: Vec<Kept>,
     pub regions: Vec<Vec<u8>>,
+    /// senders handed out so far (label, handle): a later request may get a clone of one of them — the same channel twice
+    /// in one value
+    pub senders: Vec<(usize, ipc_channel::ipc::OpaqueIpcSender)>,
+    pub reuse: u64,
+    /// only the `enc` mode (whose request text is derived from the labels inside the value) embeds the same channel twice
+    pub allow_reuse: bool,
 }
 impl World {
     pub fn region_bytes(&mut self, rng: &mut Rng) -> (usize, Vec<u8>) {
@@ -34,9 +40,17 @@ impl World {
 }
 impl Endpoints for World {
     fn sender(&mut self) -> Value {
+        // every third request (after the first) re-uses an earlier channel
+        self.reuse += 1;
+        if self.allow_reuse && self.reuse % 3 == 0 && !self.senders.is_empty() {
+            let (l, s) = &self.senders[(self.reuse as usize / 3) % self.senders.len()];
+            return Value::Sender(*l, s.clone());
+        }
         let (tx, rx) = ipc::channel::<u64>().unwrap();
         self.kept.push(Kept::IpcRx(rx));
-        Value::Sender(self.kept.len() - 1, tx.to_opaque())
+        let o = tx.to_opaque();
+        self.senders.push((self.kept.len() - 1, o.clone()));
+        Value::Sender(self.kept.len() - 1, o)
     }
     fn receiver(&mut self) -> Value {
         let (tx, rx) = ipc::channel::<u64>().unwrap();
@@ -185,6 +199,7 @@ fn collect_kinds(v: &Value, out: &mut Vec<char>) {
 pub fn enc_case(rng: &mut Rng, rig: &Rig, id: String, schema: Schema) -> Case {
     let mut case = Case::new(id);
     let mut w = World::default();
+    w.allow_reuse = true;
     let mut budget = 24usize;
     let v = gen_value(rng, &schema, &mut w, &mut budget);
     let vtext = v.text();
@@ -618,7 +633,9 @@ pub fn side_case(rng: &mut Rng, id: String) -> Case {
     };
     sends_txt.push(format!("send 0 1 {}", t));
     results.push(transports[0].0.send(Dyn(v)).is_ok());
-    let world = g.world;
+    let mut world = g.world;
+    // the generator's own clones (kept to embed the same channel twice) must not count as "held by the library"
+    world.senders.clear();
     let kinds = g.kinds;
     // what arrived at the OS level, per transport
     let mut msgs = Vec::new();
